@@ -63,6 +63,30 @@ def parse(path):
     return {"states": states, "edges": edges, "parent": parent, "roots": roots}
 
 
+def stage(v, prop, plans):
+    """rows addressed by name / selected by 'name::count' on tables DERIVED by the API (+, *, rows, cols, _copy) and after assignments:
+    the name queries of heap_replay, counted for property `prop` (C08 / C07)"""
+    scratch = build.build("pure")
+    stats = collections.Counter()
+    tot_s = tot_t = 0
+    for i, (tb, dp, rw, rt, sim) in enumerate(plans):
+        g, r = explore(tb, dp, rw, rt, simulate=sim, sd=seed() + i)
+        tot_s += len(g["states"])
+        tot_t += len(g["edges"])
+        fails, st, samples = par.run_workers("harness.heap_replay", {"graph": g, "scratch": scratch}, 14)
+        stats.update(st)
+        for f in fails:
+            if prop in f["tags"]:
+                v.violation(f"[TableHeap.tla hashseed={f['hashseed']}] {f['summary']}", {"engine": "heap_replay", "root": f["root"], "path": f["path"], "detail": f["detail"]})
+    v.cov["rule"] += (" || second stage, TableHeap.tla: after every step of the derivation behaviours (rows / cols / + / *k / concatenate / _copy and assignments) every live table is "
+                      "addressed by name (first occurrence, 'name::-1', 'name::count-1', an absent name) and compared with a scan of the specification's index column")
+    v.cov["states"] = v.cov.get("states", 0) + tot_s
+    v.cov["transitions"] = v.cov.get("transitions", 0) + tot_t
+    v.cov["traces_validated_against_impl"] = v.cov.get("traces_validated_against_impl", 0) + stats["edges"]
+    v.cov["derived_table_name_queries"] = stats["name_queries"]
+    v.add(stats["edges"])
+
+
 def c14():
     q = get_tier() == "quick"
     v = Verdict("C14", "model_checking", get_tier(),
@@ -88,6 +112,9 @@ def c14():
         for s in samples[:1]:
             v.sample(s)
         for f in fails:
+            if "C14" not in f["tags"]:
+                stats["other_property_fail"] += 1
+                continue
             v.violation(f"[TableHeap.tla hashseed={f['hashseed']}] {f['summary']}", {"engine": "heap_replay", "root": f["root"], "path": f["path"], "detail": f["detail"]})
     v.add(stats["edges"])
     v.set(states=tot_s, transitions=tot_t, traces_validated_against_impl=stats["edges"], distinct_nontrivial=stats["nontrivial"], configurations=cfgs,
